@@ -207,12 +207,41 @@ func init() {
 				}
 			}
 			// many files, deep directories, long names: every file is registered under its own name and renders its own content
-			secs = append(secs, core.Section{Name: "large-trees", Exhaustive: true, N: 7,
+			secs = append(secs, core.Section{Name: "large-trees", Exhaustive: true, N: 11,
 				Run: func(c *core.Ctx, i int) {
 					files := map[string]string{}
 					layouts := map[string]bool{}
+					links := map[string]string{}   // name -> name of the file it is a symbolic link to
+					wantOut := map[string]string{} // name -> expected output where it is not the content itself
 					ext := []string{".tw", ".tw.html", ".t"}[i%3]
 					switch i {
+					case 7: // symbolic links to other templates of the tree (and to a file outside it): every name is a template of its own
+						files["home"+ext] = "the home page"
+						files["sub/about"+ext] = "the about page"
+						links["index"+ext] = "home" + ext
+						links["sub/start"+ext] = "../home" + ext
+						links["alias/deep/about"+ext] = "../../sub/about" + ext
+						links["again"+ext] = "index" + ext
+					case 8, 9, 10: // one page, layout or component of more than 1 MiB (and one of exactly 1 MiB) in a valid tree
+						filler := strings.Repeat("<li>a row of a long list</li>\n", (1<<20)/30+40)
+						exact := strings.Repeat("x", 1<<20)
+						files["layouts/big"+ext] = "<@reserve(\"b\")>"
+						files["components/big"+ext] = "C"
+						files["exact"+ext] = exact
+						files["page"+ext] = "@use(\"layouts/big\")@insert(\"b\")page @component(\"components/big\")@end"
+						layouts["layouts/big"] = true
+						wantOut["page"] = "<page C>"
+						switch i {
+						case 8:
+							files["huge"+ext] = filler + "the end"
+						case 9:
+							files["layouts/big"+ext] = filler + "<@reserve(\"b\")>"
+							wantOut["page"] = filler + "<page C>"
+						default:
+							files["components/big"+ext] = filler + "C"
+							wantOut["page"] = "<page " + filler + "C>"
+							wantOut["components/big"] = filler + "C"
+						}
 					case 0, 1, 2: // 60 / 300 / 1200 pages over 1 / 7 / 40 directories, with a layout and a component in each directory
 						nFiles, nDirs := []int{60, 300, 1200}[i], []int{1, 7, 40}[i]
 						for d := 0; d < nDirs; d++ {
@@ -251,6 +280,21 @@ func init() {
 						return
 					}
 					defer os.RemoveAll("c18big")
+					for name, target := range links {
+						os.MkdirAll(filepath.Dir(filepath.Join("c18big", name)), 0o755)
+						if err := os.Symlink(target, filepath.Join("c18big", name)); err != nil {
+							c.Inconclusive(err.Error())
+							return
+						}
+						// a link renders what its target holds
+						resolved := filepath.Join(filepath.Dir(name), target)
+						for k := 0; k < 3; k++ {
+							if t2, ok := links[resolved]; ok {
+								resolved = filepath.Join(filepath.Dir(resolved), t2)
+							}
+						}
+						files[name] = files[filepath.ToSlash(filepath.Clean(resolved))]
+					}
 					c.Input(map[string]any{"files": len(files), "case": i})
 					c.Nontrivial(fmt.Sprint("large-tree", i))
 					tpl, err, panicked := newTemplate(c, "c18big", ext)
@@ -293,6 +337,11 @@ func init() {
 						case layouts[n]:
 							if o.Err == nil {
 								c.Violation("naming:large-tree:layout-rendered", fmt.Sprintf("the layout %q rendered directly", n), map[string]any{"case": i})
+								return
+							}
+						case wantOut[n] != "":
+							if o.Err != nil || o.Out != wantOut[n] {
+								c.Violation("naming:large-tree:wrong-content", fmt.Sprintf("name %q rendered %s (%d bytes), want %d bytes", n, clipS(o.Describe(), 120), len(o.Out), len(wantOut[n])), map[string]any{"case": i})
 								return
 							}
 						case strings.Contains(content, "@"):
